@@ -48,7 +48,6 @@ let scfg_of kvs =
       Some (fun _ _ _ -> Some (bytes_of_hex r)) in
   let status = (try List.assoc "json" kvs with Not_found -> "none") in
   { sc_threshold = z_of_dec (get kvs "thr"); sc_checker = checker;
-    sc_json_reason = gate_json_reason;
     sc_cfg = (if (try List.assoc "cfg" kvs with Not_found -> "finish") = "stock" then CfgStock else CfgFinishOnly);
     sc_registry_blob = bytes_of_hex (try List.assoc "blob" kvs with Not_found -> "-");
     sc_status = (fun _ -> if status = "none" then None else Some (bytes_of_hex status)) }
@@ -79,7 +78,7 @@ let () = iter_lines (fun line ->
       let offl = (fun _ -> u) in
       let (x, term) = finish offl bc sc (join_init bc) (sched_of (get kvs "sched")) in
       let b = x.x_b and s = x.x_s in
-      let flag = (if term then "" else "!nonterminal") ^ (if seen_ok b.b_seen && seen_ok s.s_seen then "" else "!threshold-mismatch") in
+      let flag = (if term then "" else "!nonterminal") ^ (if seen_ok x.x_bseen && seen_ok x.x_sseen then "" else "!threshold-mismatch") in
       Printf.printf "join %s%s %s bname=%s buuid=%s sname=%s suuid=%s sproto=%s c2s=%s s2c=%s pc=%s ps=%s\n"
         (show_bot b) flag (show_srv s)
         (hex_of_bytes b.b_name) (hex_of_bytes b.b_uuid) (hex_of_bytes s.s_name) (hex_of_bytes s.s_uuid)
@@ -90,7 +89,7 @@ let () = iter_lines (fun line ->
       let bc = bcfg_of kvs and sc = scfg_of kvs in
       let offl = (fun _ -> []) in
       let (x, term) = finish offl bc sc (ping_init bc) (sched_of (get kvs "sched")) in
-      let flag = (if term then "" else "!nonterminal") ^ (if seen_ok x.x_b.b_seen && seen_ok x.x_s.s_seen then "" else "!threshold-mismatch") in
+      let flag = (if term then "" else "!nonterminal") ^ (if seen_ok x.x_bseen && seen_ok x.x_sseen then "" else "!threshold-mismatch") in
       Printf.printf "ping %s%s %s sproto=%s c2s=%s s2c=%s\n"
         (show_bot x.x_b) flag (show_srv x.x_s)
         (dec_of_z x.x_s.s_proto) (show_frames x.x_c2s_hist) (show_frames x.x_s2c_hist)
